@@ -67,6 +67,31 @@ CHECKS = {
    note=TRUST + "<= 2/3 environment variables and tokens",
    technique="explicit TLA+ step machine whose history variable is the call log; exhaustive case product; logs compared with the real code's calls",
    design="4 (C19)"),
+ "C03": dict(level="model_checking", engine="SpecLexer+exec",
+   text="TLC checks termination (liveness under weak fairness) of the scanner machine of SpecLexer.tla on every class string up to the bound; the library's lexer runs on their concretisations. Random byte strings, random spec-alphabet strings and grammar-derived specs with nested repetitions of optional groups and -- inside repetitions are compiled and run, against 12-16 argument vectors and all 16 subsets of environment-backed options, in sacrificial worker processes with a deadline and a stack limit; every outcome must be a positioned spec error (whose Error() does not panic), acceptance or a usage error.",
+   note=TRUST + "termination of simplify/apply is established on the real code by bounded sacrificial runs (deadline 3 s), not by proof; sampled specs; Dev_SimplifyLoop and Dev_EpsLoop were found this way and are fixed in /repo",
+   technique="TLC liveness check of the scanner machine; sacrificial execution of generated specs/argument vectors/environment subsets on the real code with crash and hang attribution",
+   design="4 (C03)"),
+ "C04": dict(level="model_checking", engine="CmdTree",
+   text="CmdTree.tla walks Cmd.parse level by level over 4 command trees and every argument vector up to the bound (split at the first direct sub command name, validation of the level's own tokens by RefSemantics, descent) and TLC checks that the 'illegal input' tail is unreachable; every explored invocation is replayed on the library: exactly the predicted command's Before/Action/After chain must run, every level's bindings must be a derivation of its own tokens, and a rejection at level k must run nothing.",
+   note=TRUST + "4 hand-written trees (depth <= 4, aliases, spec-less level, spec-level --); vectors up to 4 (quick) / 5 (thorough) tokens",
+   technique="explicit TLA+ model of per-level parsing, exhaustive TLC enumeration of argument vectors, every behaviour replayed on the real code",
+   design="4 (C04)"),
+ "C07": dict(level="model_checking", engine="CmdTree",
+   text="Same engine as C04 with all three error policies and an alphabet of rejection causes (spec mismatch at any level, unknown option, unknown word, inconvertible Int value incl. a bad value that is not the last one): the library must run no hook, write the error and the usage of the rejecting command and then return the error / exit once with 2 / panic with the error; accepted invocations return nil without exit or panic.",
+   note=TRUST + "fresh application object per invocation (a second Run on the same object is not exercised); policy set before sub commands are declared",
+   technique="explicit TLA+ model of parse + onError, exhaustive TLC enumeration, every behaviour replayed on the real code",
+   design="4 (C07)"),
+ "C08": dict(level="model_checking", engine="SpecLexer+SpecParser",
+   text="Lexical: TLC runs the scanner machine and the declarative token grammar on every string over 17 character classes up to length 4/5 (they must agree, tokens must tile the string) and on random/juxtaposed whole strings; each string goes through lexer.Tokenize and must give the same tokens or an error between the first untokenisable character and the end. Syntactic: TLC proves the recursive-descent model equivalent to the spec grammar on every sequence of <= 4/5 token kinds (declared and undeclared names, option after --); each sequence is rendered (random blanks, leading blanks) and compiled through Run: compiled iff well-formed, otherwise a spec error at the offending token before any hook runs.",
+   note=TRUST + "bounded lengths; the offending token is defined as where the recursive descent (proved equivalent to the grammar on the explored sequences) stops",
+   technique="explicit TLA+ scanner and parser machines checked by TLC against declarative grammars; every explored string/sequence replayed on the real code",
+   design="4 (C08)"),
+ "C14": dict(level="model_checking", engine="CmdTree",
+   text="Same engine as C04 with help tokens and a version flag in the alphabet and three policies: CmdTree.tla scans for the help token up to the first -- at every level (TLC checks that a descendant of a help descent always sees the token) and says whose long help is shown or that the token is data behind a -- of the same level; the library must print 'Usage: <path>' of that command with its long description, run no hook, validate nothing and exit 0 / return nil; a tree whose root declares its own -h option is included.",
+   note=TRUST + "unclaimed vectors (help below an ancestor whose own arguments contain --; version with help) are recognised by the specification and skipped",
+   technique="explicit TLA+ model of helpIndex/parse/Cli.parse, exhaustive TLC enumeration, every behaviour replayed on the real code",
+   design="4 (C14)"),
 }
 
 NA_REASON = "check not built yet (framework under construction; see DESIGN.md section 9 for the order)"
@@ -85,6 +110,8 @@ def main():
               "serves_properties": ["C02", "C09", "C10", "C11", "C12", "C15"], "kind_free_text": "groups of related cases: TLC validates the relation, checks the law on the reference, predicts; the library runs every member"},
              {"name": "Flow", "path": "tla/Flow.tla harness/flow.go props/c05.py", "serves_properties": ["C05"], "kind_free_text": "step-chain machine, exhaustive fault vectors"},
              {"name": "Values", "path": "tla/Values.tla vlib/values.py harness/values.go props/valcommon.py", "serves_properties": ["C06", "C13", "C15", "C19"], "kind_free_text": "one variable from declaration to end of Run; call-log history"},
+             {"name": "CmdTree", "path": "tla/CmdTree.tla vlib/tree.py harness/tree.go props/treecommon.py", "serves_properties": ["C04", "C07", "C14"], "kind_free_text": "per-level parsing, help/version short-circuit, error policy"},
+             {"name": "SpecLexer/SpecParser", "path": "tla/SpecLexer.tla tla/MCLex.tla tla/SpecParser.tla tla/MCParser.tla harness/lex.go props/lexcommon.py", "serves_properties": ["C03", "C08"], "kind_free_text": "scanner machine vs token grammar; recursive descent vs spec grammar"},
              {"name": "Decl", "path": "tla/Decl.tla tla/MCDecl.tla harness/decl.go props/c18.py", "serves_properties": ["C18"], "kind_free_text": "name table over declaration sequences"}],
          "checks": [], "not_applicable": [],
          "notes": "All checks: ./check <id> [--tier quick|thorough]; exit 2 = machinery failure (never a verdict). Fix commits in /repo: 4e600a3 a7ec4b7 9987887 7c7116f f237444 08da7e9 0f4c4bd (see findings/known.json)."}
